@@ -119,6 +119,11 @@ def binop(op: str, a, b, side):
         if len(a.items) == 1:
             c = z_int(a.items[0])
             return VSeq(z3.K(z3.IntSort(), c), z_int(b), "int")
+    if isinstance(a, (bool, VBool)) and isinstance(b, (bool, VBool)) and op in ("&", "|", "^"):
+        # bool <op> bool is a bool in Python
+        p = z3.BoolVal(a) if isinstance(a, bool) else a.z
+        q = z3.BoolVal(b) if isinstance(b, bool) else b.z
+        return lift_bool({"&": z3.And, "|": z3.Or, "^": z3.Xor}[op](p, q))
     if not (is_intlike(a) and is_intlike(b)):
         raise Unsupported(f"operator {op} on {type(a).__name__}, {type(b).__name__}")
     x, y = z_int(a), z_int(b)
